@@ -2251,6 +2251,15 @@ class KmipEngine(object):
         # like 'State' are provided in the same request.
         if payload.attributes:
 
+            # An attribute that the request's protocol version does not
+            # define (yet) cannot be used as a filter.
+            for payload_attribute in payload.attributes:
+                name = payload_attribute.attribute_name.value
+                if not self._attribute_policy.is_attribute_supported(name):
+                    raise exceptions.InvalidField(
+                        "The {0} attribute is unsupported.".format(name)
+                    )
+
             managed_objects_filtered = []
 
             # Filter the objects based on given attributes.
